@@ -70,6 +70,21 @@ def build_frame(spec):
         df.index = pd.Index(range(len(df)), name='hit')
     if fl.get('attrs'):
         df.attrs['source'] = 'caller'
+    if fl.get('prechecked'):
+        # the documented "validate ahead of time" workflow: the caller's table is the output of
+        # ampycloud's own checker (or a subset / copy of it)
+        import warnings as _w
+        from ampycloud.utils.utils import check_data_consistency
+        with _w.catch_warnings():
+            _w.simplefilter('ignore')
+            try:
+                df = check_data_consistency(df)
+                if fl['prechecked'] == 'subset':
+                    df = df.iloc[: max(2, len(df) - 3)]
+                elif fl['prechecked'] == 'copy':
+                    df = df.copy()
+            except Exception:
+                pass
     if fl.get('view'):
         # the caller hands over a slice of a larger frame of theirs
         big = pd.concat([df, df.iloc[:3]], ignore_index=False)
@@ -83,6 +98,8 @@ def gen_flavour(rng):
         fl['ceilo'] = rng.choice(['object', 'object', 'category'])
     if rng.random() < 0.15:
         fl['view'] = True
+    if rng.random() < 0.2:
+        fl['prechecked'] = rng.choice(['same', 'subset', 'copy'])
     if rng.random() < 0.4:
         fl['type'] = rng.choice(['float', 'int32'])
     if rng.random() < 0.2:
